@@ -25,7 +25,7 @@ PROPERTY = 'C15'
 LEVEL = 'proof'
 REQUIRED_THEOREMS = ['Properties.C15.reload_sound', 'Properties.C15.afterLoad_entry', 'Properties.C15.reload_same_function',
                      'Properties.C15.reload_after_history', 'Properties.C15.reloadSafeU_all_used', 'Properties.C15.reloadSafeU_exact']
-RULE = ("cases = (configuration from harness/common/zoo.py, history before saving in {fresh, train2, ddinit, ddinit+train2, eval_calls}, "
+RULE = ("cases = (configuration from harness/common/zoo.py, history before saving in {fresh, train2, ddinit, ddinit+train2, f64+ddinit+train2 (both models converted with .double() first), eval_calls}, "
         "seed pair (A, B) derived from VERIF_SEED); the inventory (kinds, constructor-determined flags from 5 seeds, used flags) is "
         "extracted from the running code; the Lean driver's afterLoad/applyHist prediction is compared entry by entry with the real "
         "load_state_dict, and the functions of the saved and of the reloaded instance are compared bitwise.  A case is distinct by "
@@ -62,10 +62,22 @@ def fixed_inputs(cfg, k=0):
     return cfg.gen(atom, gen), cfg.gen_ctx(gen)
 
 
+def _dtype_of(m):
+    for t in list(m.parameters()) + list(m.buffers()):
+        if t.is_floating_point():
+            return t.dtype
+    return torch.float32
+
+
+def _cast(m, t):
+    return t if t is None or not t.is_floating_point() else t.to(_dtype_of(m))
+
+
 def evaluate(m, cfg, train_forward=True):
     """-> dict call -> bytes | ('raised', type).  eval-mode calls first, one training-mode forward last."""
     out = {}
     x, c = fixed_inputs(cfg)
+    x, c = _cast(m, x), _cast(m, c)
     was = m.training
     m.eval()
 
@@ -118,13 +130,14 @@ def _copy(m):
     return copy.deepcopy(m)
 
 
-HISTORIES = ['fresh', 'train2', 'ddinit', 'ddinit+train2', 'eval_calls']
+HISTORIES = ['fresh', 'train2', 'ddinit', 'ddinit+train2', 'f64+ddinit+train2', 'eval_calls']
 
 
 def histories_for(cfg):
     hs = ['fresh', 'train2']
     if cfg.batch_stats:
-        hs += ['ddinit', 'ddinit+train2']
+        # 'f64' = both models converted with .double() right after construction (Module._apply replaces parameter and buffer tensors)
+        hs += ['ddinit', 'ddinit+train2', 'f64+ddinit+train2']
     if cfg.cache:
         hs += ['eval_calls']
     return hs
@@ -142,8 +155,21 @@ def apply_history(m, cfg, hist, seed):
             return (y ** 2).mean() - ld.mean()
         return -m.log_prob(x, context=c).mean()
 
+    _gen, _gen_ctx = cfg.gen, cfg.gen_ctx
+
+    class _Cfg:           # inputs in the dtype of the model
+        @staticmethod
+        def gen(a, g):
+            return _cast(m, _gen(a, g))
+
+        @staticmethod
+        def gen_ctx(g):
+            return _cast(m, _gen_ctx(g))
+    cfg_kind = cfg.kind
+    cfg = _Cfg
+    cfg.kind = cfg_kind
     for step in hist.split('+'):
-        if step == 'fresh':
+        if step in ('fresh', 'f64'):
             continue
         if step == 'ddinit':
             m.train()
@@ -337,11 +363,15 @@ def seed_pairs(ctx):
 def one_case(cfg, hist, sa, sb, entries):
     """-> dict with everything needed for the comparison (no ctx access)"""
     A = zoo.build(cfg, sa)
+    if hist.startswith('f64'):
+        A = A.double()
     pre = INV.digests(A)
     apply_history(A, cfg, hist, sa * 13 + 5)
     post = INV.digests(A)
     sd = save_load_roundtrip(A.state_dict())
     B = zoo.build(cfg, sb)
+    if hist.startswith('f64'):
+        B = B.double()
     fresh = INV.digests(B)
     outB0 = evaluate(B, cfg, train_forward=False)
     load_error = None
@@ -464,9 +494,13 @@ def correspondence(ctx):
 # ---- search / replay ---------------------------------------------------------------------------------------------
 def behavioural(cfg, hist, sa, sb):
     A = zoo.build(cfg, sa)
+    if hist.startswith('f64'):
+        A = A.double()
     apply_history(A, cfg, hist, sa * 13 + 5)
     sd = save_load_roundtrip(A.state_dict())
     B = zoo.build(cfg, sb)
+    if hist.startswith('f64'):
+        B = B.double()
     try:
         B.load_state_dict(sd)
     except Exception as e:
